@@ -23,6 +23,7 @@ def _case(draw, kind):
     case["g1"] = draw(st.integers(0, 10**6))
     case["g2"] = 10**6 + 1 + draw(st.integers(0, 10**6))
     case["enc2"] = draw(st.sampled_from(["float10_nan", "num_m1", "num_99"]))
+    case["rs_kind"] = draw(st.sampled_from(["int", "int", "RandomState"]))
     return case
 
 
@@ -61,7 +62,7 @@ def _set_missing(obj, missing, classes, seen=None):
             _set_missing(v, missing, classes, seen)
 
 
-def _call(case, enc, gseed):
+def _call(case, enc, gseed, repeat=False):
     labels_, missing = MA_ENCODINGS[enc]
     K = case["n_classes"]
     classes = labels_[:K]
@@ -70,6 +71,8 @@ def _call(case, enc, gseed):
     for c in range(K):
         y_enc[y == c] = labels_[c]
     qs, kw = c07._build(case, list(range(K)))
+    if case.get("rs_kind") == "RandomState":
+        qs.set_params(random_state=np.random.RandomState(case["seed"]))
     _set_missing(qs, missing, classes)
     for v in kw.values():
         _set_missing(v, missing, classes)
@@ -77,6 +80,13 @@ def _call(case, enc, gseed):
     ok, r = guarded(qs.query, X.copy(), y_enc, candidates=cand_arg,
                     annotators=annot_arg, batch_size=case["batch_size"],
                     return_utilities=True, **kw)
+    if repeat and ok:
+        np.random.seed(gseed + 7)
+        ok2, r2 = guarded(qs.query, X.copy(), y_enc, candidates=cand_arg,
+                          annotators=annot_arg,
+                          batch_size=case["batch_size"],
+                          return_utilities=True, **kw)
+        return ok, r, (ok2, r2)
     return ok, r, (AV, sel_rows)
 
 
@@ -93,10 +103,13 @@ def run_case(case):
     labels = [f"component={comp}", f"kind={case['kind']}"]
     if not _regular(case):
         return Outcome([], False, labels + ["not_regular"])
+    rep = None
     if case["kind"] == "ma_repro":
-        ok1, r1, _ = _call(case, "float_nan", case["g1"])
+        ok1, r1, rep = _call(case, "float_nan", case["g1"], repeat=True)
         ok2, r2, _ = _call(case, "float_nan", case["g2"])
-        trig, k1, k2 = "multi_annotator", "twin_objects_differ", "utilities"
+        trig = f"multi_annotator&rs={case.get('rs_kind', 'int')}"
+        k1 = "twin_objects_differ"
+        labels.append(f"rs={case.get('rs_kind', 'int')}")
     else:
         ok1, r1, _ = _call(case, "float_nan", 0)
         ok2, r2, _ = _call(case, case["enc2"], 0)
@@ -129,4 +142,17 @@ def run_case(case):
         viol.append(Violation(comp, k1, trig,
                               f"{np.asarray(q1).tolist()} vs "
                               f"{np.asarray(q2).tolist()}"))
+    if rep is not None and not viol:
+        ok3, r3 = rep
+        if not ok3:
+            viol.append(Violation(comp, "repeated_call_raises", trig,
+                                  repr(r3)[:200]))
+        else:
+            q3, u3 = r3
+            if (not arr_close(u1, u3, **SAME) or not arr_equal_exact(
+                    np.asarray(q1), np.asarray(q3))):
+                viol.append(Violation(
+                    comp, "repeated_call_differs", trig,
+                    f"{np.asarray(q1).tolist()} vs "
+                    f"{np.asarray(q3).tolist()}"))
     return Outcome(viol, True, labels)
